@@ -16,6 +16,10 @@ def _budget(ctx):
 def run_property(mod, ctx, only=None, do_hunt=True):
     t0 = time.time()
     pid = ctx.prop_id
+    from . import calib
+    if calib.main() != 0:
+        sys.stderr.write("[%s] calibration suite failed: no verdict is believed\n" % pid)
+        return 2
     spec = mod.spec(ctx)
     known = driver.load_known()
     all_results = []
